@@ -365,7 +365,7 @@ Print Assumptions C17_window_examples.
    the three _explicit theorems). *)
 From S4.Base Require Chunk.
 From S4.Model Require Lines Caches RetainCaches.
-From S4.Proofs Require CachesProofs RetainKeepsUp RetainNoErr RetainFar RetainCachesAgree RetainCachesLayout.
+From S4.Proofs Require CachesProofs RetainKeepsUp RetainNoErr RetainFar RetainFarFifo RetainCachesAgree RetainCachesLayout.
 
 (* what "agree" says: the five counters of summary() equal the five marks, the three stores have
    the same sizes, and no release failed *)
@@ -569,6 +569,56 @@ Theorem C17_far_tight_example :
   0 < derr (run cur_plain (init ms) (sched_lag 29 (length ms))).
 Proof. vm_compute. repeat split; reflexivity. Qed.
 Print Assumptions C17_far_tight_example.
+
+(* ... for EVERY schedule of a first-in-first-out consumer, not only the constant lag: the j-th release
+   is the release of message j and happens after message j was sent; the worker's iterations and the
+   releases interleave arbitrarily (the consumer may keep up for a while, then fall back as far as the
+   bound allows, then catch up in bursts) *)
+Theorem C17_fifo_explicit : forall evs, RetainFarFifo.fifo evs <-> RetainFarFifo.fifo_from 0 0 evs.
+Proof. exact (fun evs => iff_refl _). Qed.
+Print Assumptions C17_fifo_explicit.
+
+Theorem C17_fifo_from_explicit : forall next sent evs, RetainFarFifo.fifo_from next sent evs <->
+  match evs with
+  | [] => True
+  | EW :: r => RetainFarFifo.fifo_from next (sent + 1) r
+  | ER j :: r => j = next /\ j < sent /\ RetainFarFifo.fifo_from (next + 1) sent r
+  end.
+Proof. intros next sent evs. destruct evs as [|e r]; [reflexivity|]. destruct e; reflexivity. Qed.
+Print Assumptions C17_fifo_from_explicit.
+
+Theorem C17_far_no_failed_release_fifo : forall c lag ms evs, 1 <= lag -> map mkey ms = nseq 0 (length ms) ->
+  RetainFar.far lag ms -> RetainFarFifo.fifo evs -> sched_ok lag c (init ms) evs = true ->
+  derr (run c (init ms) evs) = 0.
+Proof. exact RetainFarFifo.cur_far_no_err_fifo. Qed.
+Print Assumptions C17_far_no_failed_release_fifo.
+
+Theorem C17_far_bounded_fifo : forall bs span ml lag ms c evs, pol c = P_cur -> wf bs span ml ms -> 1 <= lag ->
+  map mkey ms = nseq 0 (length ms) -> RetainFar.far lag ms -> RetainFarFifo.fifo evs ->
+  sched_ok lag c (init ms) evs = true ->
+  let s := run c (init ms) evs in
+  derr s = 0 /\ hs s <= bound_syslines bs span /\ hl s <= bound_lines bs span ml lag.
+Proof. exact RetainFarFifo.cur_far_bounded_fifo. Qed.
+Print Assumptions C17_far_bounded_fifo.
+
+(* the canonical schedules are such schedules *)
+Theorem C17_sched_lag_fifo : forall lag n, 1 <= lag -> RetainFarFifo.fifo (sched_lag lag n).
+Proof. exact RetainFarFifo.sched_lag_fifo. Qed.
+Print Assumptions C17_sched_lag_fifo.
+
+(* an irregular schedule (1 behind for eight messages, then 7 behind for eight, catching up in bursts)
+   meets the hypotheses; and "after it was sent" is needed: a release before the send uses up the
+   message's turn, message 0 stays referenced and one release fails *)
+Theorem C17_far_fifo_examples :
+  let ms := layout_msgs 512 RetainNoErr.far_layout in
+  (let evs := RetainFarFifo.irregular 1 7 0 0 (length ms) in
+   RetainFarFifo.fifob evs = true /\ RetainFar.farb 7 ms = true /\
+   sched_ok 7 cur_plain (init ms) evs = true /\ derr (run cur_plain (init ms) evs) = 0) /\
+  (let evs := RetainFarFifo.premature (length ms) in
+   RetainFarFifo.fifob evs = false /\ sched_ok 7 cur_plain (init ms) evs = true /\
+   derr (run cur_plain (init ms) evs) = 1).
+Proof. vm_compute. repeat split; reflexivity. Qed.
+Print Assumptions C17_far_fifo_examples.
 
 Theorem C17_keeps_up_example :
   let ms := layout_msgs 64 ex_layout in
